@@ -273,17 +273,14 @@ theorem C10.never_superclass_of_equal (W : World) (pc : Option Collector) (fgs :
     rw [validate_ok_iff.mp hid]; exact List.mem_singleton_self _
   exact ((C10.candidates_iff W f links acc (g, s)).mp hmem).2.2
 
-/-- two frameworks 0,1 (both loaded and available); class 1 derives from class 0 -/
-def C10.W0 : World := { parent := fun c => if c = 1 then some 0 else none, allCfw := [0, 1], available := fun _ => true }
-
 /-- NEGATION WITNESS (finding F-C10-subclass-framework-sets): parent rule {0,1}, child rule {0}, both match: the engine
 answers "Multiple feature groups found" while the documented subclass preference (`resolve_feature`) selects the child. -/
 theorem C10.prefer_subclass_witness :
     let P : FG := ⟨0, true, "default_domain", some [0, 1], none⟩
     let C : FG := ⟨1, true, "default_domain", some [0], none⟩
-    resolve C10.W0 none [P, C] [0, 1] ⟨none, none⟩ none = .error .multipleGroups ∧
-    resolveFeatureDoc C10.W0 [P, C] = .one 1 ∧
-    resolve C10.W0 none [P, C] [0] ⟨none, none⟩ none = .ok (C, [0]) := by decide
+    resolve witnessWorld none [P, C] [0, 1] ⟨none, none⟩ none = .error .multipleGroups ∧
+    resolveFeatureDoc witnessWorld [P, C] = .one 1 ∧
+    resolve witnessWorld none [P, C] [0] ⟨none, none⟩ none = .ok (C, [0]) := by decide
 
 /-! ## Links and index support in the filter loop -/
 
@@ -311,9 +308,9 @@ theorem C10.linksOk_iff (fg : FG) (links : Option (List (Links.Index × Links.In
 it is resolved, with `links=set()` the request fails with "No feature groups found". -/
 theorem C10.empty_links_witness :
     let I : FG := ⟨0, true, "default_domain", none, some [["k"]]⟩
-    resolve C10.W0 none [I] [0] ⟨none, none⟩ none = .ok (I, [0]) ∧
-    resolve C10.W0 none [I] [0] ⟨none, none⟩ (some []) = .error .noGroup ∧
-    resolve C10.W0 none [I] [0] ⟨none, none⟩ (some [(["k"], ["z"])]) = .ok (I, [0]) := by decide
+    resolve witnessWorld none [I] [0] ⟨none, none⟩ none = .ok (I, [0]) ∧
+    resolve witnessWorld none [I] [0] ⟨none, none⟩ (some []) = .error .noGroup ∧
+    resolve witnessWorld none [I] [0] ⟨none, none⟩ (some [(["k"], ["z"])]) = .ok (I, [0]) := by decide
 
 /-! ## Collector and API argument -/
 
@@ -396,7 +393,7 @@ example :
     resolve W pc fgs [2] ⟨some "d", none⟩ none = .error .noGroup ∧
     resolve W (some ⟨[], [9]⟩) fgs [0] ⟨none, none⟩ none = .error .noAccessibleGroups := by decide
 
-example : setupComputeFramework C10.W0 (some [1, 7]) [some 1, none] = .ok [1] ∧
-    setupComputeFramework C10.W0 (some [7]) [] = .error .noApiFramework ∧
-    setupComputeFramework C10.W0 (some [1]) [some 0] = .error .featureFrameworkNotOffered ∧
-    setupComputeFramework C10.W0 (some []) [some 0] = .ok [0, 1] := by decide
+example : setupComputeFramework witnessWorld (some [1, 7]) [some 1, none] = .ok [1] ∧
+    setupComputeFramework witnessWorld (some [7]) [] = .error .noApiFramework ∧
+    setupComputeFramework witnessWorld (some [1]) [some 0] = .error .featureFrameworkNotOffered ∧
+    setupComputeFramework witnessWorld (some []) [some 0] = .ok [0, 1] := by decide
